@@ -60,6 +60,10 @@ pub struct World {
 	pub fault_op: u8,
 	/// 0: any operation may fault, 1: only acquisitions, 2: only releases
 	pub fault_class: u8,
+	/// C01/H1: check that every blocking request made while holding asks for a lock whose address is above
+	/// every lock held (the rank of the sorting collections)
+	pub order_check: bool,
+	pub max_held_addr: usize,
 }
 
 pub static mut W: World = World::new();
@@ -85,6 +89,8 @@ impl World {
 			fault_addr: 0,
 			fault_op: 0,
 			fault_class: 0,
+			order_check: false,
+			max_held_addr: 0,
 		}
 	}
 }
@@ -172,8 +178,27 @@ impl VState {
 		}
 	}
 
+	fn note_acquired(&self) {
+		let w = w();
+		let a = self as *const VState as usize;
+		if a > w.max_held_addr {
+			w.max_held_addr = a;
+		}
+	}
+
+	fn note_released(&self) {
+		let w = w();
+		if w.held == 0 {
+			w.max_held_addr = 0;
+		}
+	}
+
 	fn note_blocking(&self) {
 		let w = w();
+		if w.order_check && w.held > 0 {
+			// H1 of lemma L3: ordered hold-and-wait
+			assert!(self as *const VState as usize > w.max_held_addr, "C01_blocking_request_ranks_above_every_lock_held");
+		}
 		w.blocking_issued = true;
 		if w.held > 0 {
 			w.blocked_while_holding = true;
@@ -193,6 +218,7 @@ impl VState {
 		self.mine.set(EXCL);
 		self.acq_x.set(self.acq_x.get() + 1);
 		w().held += 1;
+		self.note_acquired();
 	}
 
 	pub fn try_x(&self) -> bool {
@@ -203,6 +229,7 @@ impl VState {
 			self.mine.set(EXCL);
 			self.acq_x.set(self.acq_x.get() + 1);
 			w().held += 1;
+			self.note_acquired();
 		} else {
 			w().last_failed = self.id.get();
 		}
@@ -216,6 +243,7 @@ impl VState {
 		self.mine.set(NONE);
 		self.rel_x.set(self.rel_x.get() + 1);
 		w().held -= 1;
+		self.note_released();
 	}
 
 	pub fn lock_s(&self) {
@@ -228,6 +256,7 @@ impl VState {
 		self.mine.set(1);
 		self.acq_s.set(self.acq_s.get() + 1);
 		w().held += 1;
+		self.note_acquired();
 	}
 
 	pub fn try_s(&self) -> bool {
@@ -239,6 +268,7 @@ impl VState {
 			self.mine.set(m + 1);
 			self.acq_s.set(self.acq_s.get() + 1);
 			w().held += 1;
+			self.note_acquired();
 		} else {
 			w().last_failed = self.id.get();
 		}
@@ -252,6 +282,7 @@ impl VState {
 		self.mine.set(m - 1);
 		self.rel_s.set(self.rel_s.get() + 1);
 		w().held -= 1;
+		self.note_released();
 	}
 }
 
